@@ -349,4 +349,14 @@ theorem nsq_leafP {R : Type} [CommRing R] [StarRing R] (c s : R) (L k : ℕ) :
     simp only [leafP, nsq_mul, ih]
     by_cases h : k % 2 = 0 <;> simp [h]
 
+/-- `ℚ → ℚ[i]` as a ring homomorphism (to instantiate the general statement at the executable ring) -/
+def GQ_ofRatHom : ℚ →+* GQ where
+  toFun := GQ.ofRat
+  map_one' := rfl
+  map_mul' := GQ_ofRat_mul
+  map_zero' := rfl
+  map_add' := by intro a b; ext <;> simp [GQ.ofRat]
+
+@[simp] theorem GQ_ofRatHom_apply (q : ℚ) : GQ_ofRatHom q = GQ.ofRat q := rfl
+
 end PM.C08
